@@ -202,6 +202,14 @@ func runSolver(ctx context.Context, sp solverSpec, dir string, id int, script st
 	cmd.Run()
 	el := time.Since(t0).Seconds()
 	o := out.String()
+	for strings.HasPrefix(o, "WARNING") {
+		// solver warnings precede the answer
+		i := strings.Index(o, "\n")
+		if i < 0 {
+			break
+		}
+		o = o[i+1:]
+	}
 	first := strings.TrimSpace(strings.SplitN(o, "\n", 2)[0])
 	switch first {
 	case "unsat", "sat", "unknown":
@@ -296,6 +304,11 @@ func decided(r *QResult) bool {
 	if r.Q.Cover {
 		return true
 	}
+	if r.Status == "sat" && !r.Q.Known && (strings.Contains(r.Q.Script, "(forall ") || strings.Contains(r.Q.Script, "(exists ")) {
+		// a model claimed for a quantified script is tentative: the refuting solvers get the longer
+		// stages too; if nobody refutes, the "sat" stands
+		return false
+	}
 	return r.Status == "sat" || r.Status == "unsat"
 }
 
@@ -338,14 +351,30 @@ func solveRace(dir string, id int, q *Query, timeout int, prev *QResult) *QResul
 	}
 	best := res{st: "unknown"}
 	var total float64
+	// A model claimed for a script with quantifiers cannot be checked by the solver itself (MBQI), a
+	// refutation can (finitely many instances): z3 4.8.12 answered "sat" where cvc5 and z3 5.1 refute.
+	// So "sat" on a quantified script does not end the race; a later "unsat" wins and the disagreement
+	// is recorded.
+	quantified := strings.Contains(q.Script, "(forall ") || strings.Contains(q.Script, "(exists ")
+	var satRes *res
 	for i := 0; i < len(racers); i++ {
 		x := <-ch
 		r.Attempt = append(r.Attempt, fmt.Sprintf("%s:%s:%.2fs", x.name, x.st, x.el))
 		if x.el > total {
 			total = x.el
 		}
+		if x.st == "sat" && quantified && !q.Cover {
+			if satRes == nil {
+				y := x
+				satRes = &y
+			}
+			continue
+		}
 		if x.st == "sat" || x.st == "unsat" {
 			best = x
+			if satRes != nil && x.st == "unsat" {
+				r.Attempt = append(r.Attempt, "disagreement:"+satRes.name+"=sat,"+x.name+"=unsat(refutation preferred)")
+			}
 			cancel()
 			break
 		}
@@ -355,6 +384,14 @@ func solveRace(dir string, id int, q *Query, timeout int, prev *QResult) *QResul
 		if x.st == "error" && best.out == "" {
 			best.out = x.out
 		}
+	}
+	if best.st != "unsat" && best.st != "sat" && satRes != nil {
+		best = *satRes
+	}
+	if best.st != "unsat" && best.st != "sat" && prev != nil && prev.Status == "sat" {
+		// keep the tentative model of an earlier stage
+		r.Status, r.Solver, r.Secs, r.Output, r.Values = prev.Status, prev.Solver, prev.Secs+total, prev.Output, prev.Values
+		return r
 	}
 	r.Status, r.Solver, r.Secs, r.Output = best.st, best.name, best.el+prev.Secs, best.out
 	if r.Status == "error" {
